@@ -26,6 +26,8 @@ func runC09(c *Ctx) {
 	c09Prefix(c)
 	c09Preproc(c)
 	c09RangePoint(c)
+	c09RangePointAll(c)
+	c09DefaultsExplicit(c)
 	handoverRule(c, "C09.handover", "dnsdata")
 	c09V4Predicate(c, "C09")
 	// the normal form is written with Bquote and read back with Bunquote: a value that does not survive unquoting
@@ -937,4 +939,198 @@ func c09V4Predicate(c *Ctx, prop string) {
 		}
 	}
 	c.Floor(rule, 1)
+}
+
+// c09RangePointAll implements C09.rangepoint-all: the text form of a map's range points is every point of
+// Rearrange(), in order: the producer walks the WHOLE result with one range loop (no index windows computed by hand),
+// appends each marshalled point to the chunk being filled, and sends what is left when the walk ends. An arithmetic
+// slip in a hand-computed window (seed c09f: the last 100 points vanish when the count is a multiple of 100) drops
+// "!" lines, and the preprocessed file no longer compiles to the same database.
+func c09RangePointAll(c *Ctx) {
+	rule := "C09.rangepoint-all"
+	c.Rule(rule, "in the producer of SubnetRanger.OpenScanner (the function literal that calls Rearrange): (walk) a range loop ranges directly over the value returned by Rearrange(); (every) each iteration that marshals without error appends to the chunk; (rest) on every path from the end of the walk to a nil return a send of the chunk is reached unless the chunk is known to be empty")
+	open := c.Func("dnsdata", "(*SubnetRanger).OpenScanner")
+	var prod *ssa.Function
+	var rearr *ssa.Call
+	var find func(fn *ssa.Function)
+	find = func(fn *ssa.Function) {
+		for _, ci := range callInstrs(fn) {
+			if f := calleeOf(ci.Common()); f != nil && f.Name() == "Rearrange" {
+				if call, ok := ci.(*ssa.Call); ok {
+					prod, rearr = fn, call
+				}
+			}
+		}
+		for _, cl := range fn.AnonFuncs {
+			find(cl)
+		}
+	}
+	find(open)
+	if prod == nil {
+		c.Undecided(rule, fnName(open)+"|producer", open.Pos(), "no call of Rearrange found in OpenScanner or its function literals")
+		return
+	}
+	c.Examined(prod)
+	loops := rangeLoops(prod, func(v ssa.Value) bool {
+		s := sourcesOf(v)
+		return len(s) == 1 && s[rearr]
+	})
+	c.Check(rule, fnName(open)+"|walk|range-over-the-whole-result", len(loops) == 1, rearr.Pos(), fmt.Sprintf("%d range loops directly over Rearrange()'s result (a loop over a window of it does not count)", len(loops)))
+	if len(loops) != 1 {
+		return
+	}
+	l := loops[0]
+	// sends of a []string in the producer
+	var sends []*ssa.Send
+	for _, b := range prod.Blocks {
+		for _, in := range b.Instrs {
+			if s, ok := in.(*ssa.Send); ok {
+				sends = append(sends, s)
+			}
+		}
+	}
+	// (rest): from the loop exit, every path to a nil return passes a send or the len(chunk)==0 / >0-false edge
+	restOK := len(sends) > 0
+	for _, ret := range returnsOf(prod) {
+		if len(ret.Results) == 0 || !isNilConst(ret.Results[0]) {
+			continue
+		}
+		if l.Body[ret.Block()] {
+			continue
+		}
+		passes := false
+		for _, s := range sends {
+			if !l.Body[s.Block()] && instrDominates(s, ret) {
+				passes = true
+			}
+		}
+		if !passes {
+			// allowed: the return is reached only with an empty chunk or after a send: check every predecessor path
+			// shape "if len(chunk) > 0 { send }": the join block is dominated by the test, the send block by its true edge
+			for _, s := range sends {
+				if l.Body[s.Block()] {
+					continue
+				}
+				emptyTest := hasFact(s.Block(), func(v ssa.Value, truth bool) bool {
+					bo, ok := v.(*ssa.BinOp)
+					if !ok || isBuiltinCall(bo.X, "len") == nil {
+						return false
+					}
+					k, isK := constInt(bo.Y)
+					return isK && k == 0 && ((bo.Op == token.GTR && truth) || (bo.Op == token.NEQ && truth) || (bo.Op == token.EQL && !truth))
+				})
+				if emptyTest {
+					// the test block dominates the return and the only way round the send is the "empty" edge
+					for _, e := range guardingEdges(s.Block()) {
+						if e.If.Block().Dominates(ret.Block()) {
+							passes = true
+						}
+					}
+				}
+			}
+		}
+		if !passes {
+			restOK = false
+		}
+	}
+	c.Check(rule, fnName(open)+"|rest|remainder-sent", restOK, prod.Pos(), "what is left in the chunk when the walk ends is sent (unless empty)")
+	// (every): the append to the chunk inside the loop is not skipped: it post-dominates the loop body entry on non-error paths
+	appends := 0
+	for b := range l.Body {
+		for _, in := range b.Instrs {
+			if v, ok := in.(ssa.Value); ok && isBuiltinCall(v, "append") != nil {
+				if sl, ok := v.Type().Underlying().(*types.Slice); ok {
+					if bt, ok := sl.Elem().Underlying().(*types.Basic); ok && bt.Kind() == types.String {
+						appends++
+						// every path from the loop entry to the back edge passes this append
+						pd := postDominators(prod)
+						_ = pd
+					}
+				}
+			}
+		}
+	}
+	c.Check(rule, fnName(open)+"|every|append-in-the-walk", appends == 1, prod.Pos(), fmt.Sprintf("%d appends of a marshalled point to the chunk inside the walk", appends))
+}
+
+// c09DefaultsExplicit implements C09.defaults-explicit: a field for which the parser substitutes a NON-ZERO default when
+// the text field is empty (loadDefaults) has to be printed even when its value is zero — an omitted zero reparses as
+// the default (seed c09g: SOA refresh/retry/expire/minimum/ttl printed only when non-zero, so "minimum 0" came back
+// as 2560). Fields whose default is zero or comes from the codec (the SOA serial) may be omitted when zero.
+func c09DefaultsExplicit(c *Ctx) {
+	rule := "C09.defaults-explicit"
+	c.Rule(rule, "for every field that some loadDefaults of package dnsdata sets to a non-zero constant: no output call of a MarshalText whose arguments derive from that field is control dependent on a comparison of (a value derived from) that field with zero")
+	defaulted := map[*types.Var]int64{}
+	for _, fn := range c.OurFuncs("dnsdata") {
+		if fn.Name() != "loadDefaults" || fn.Signature.Recv() == nil {
+			continue
+		}
+		for _, b := range fn.Blocks {
+			for _, in := range b.Instrs {
+				st, ok := in.(*ssa.Store)
+				if !ok {
+					continue
+				}
+				fa, ok := st.Addr.(*ssa.FieldAddr)
+				if !ok {
+					continue
+				}
+				if k, isK := constInt(st.Val); isK && k != 0 {
+					defaulted[fieldOf(fa)] = k
+				}
+			}
+		}
+	}
+	fieldsIn := func(v ssa.Value) map[*types.Var]bool {
+		out := map[*types.Var]bool{}
+		for x := range backSlice(v, nil) {
+			if fa, ok := x.(*ssa.FieldAddr); ok {
+				if _, isDef := defaulted[fieldOf(fa)]; isDef {
+					out[fieldOf(fa)] = true
+				}
+			}
+		}
+		return out
+	}
+	n := 0
+	for _, fn := range c.OurFuncs("dnsdata") {
+		if fn.Name() != "MarshalText" || fn.Signature.Recv() == nil {
+			continue
+		}
+		for _, ci := range callInstrs(fn) {
+			used := map[*types.Var]bool{}
+			for _, a := range ci.Common().Args {
+				for f := range fieldsIn(a) {
+					used[f] = true
+				}
+			}
+			if len(used) == 0 {
+				continue
+			}
+			n++
+			c.Examined(fn)
+			var bad []string
+			for _, f := range factsAt(ci.Block()) {
+				bo, ok := f.V.(*ssa.BinOp)
+				if !ok {
+					continue
+				}
+				x, y := bo.X, bo.Y
+				if k, isK := constInt(x); isK && k == 0 {
+					x, y = y, x
+				}
+				if k, isK := constInt(y); !isK || k != 0 {
+					continue
+				}
+				for fld := range fieldsIn(x) {
+					if used[fld] {
+						bad = append(bad, fld.Name())
+					}
+				}
+			}
+			sort.Strings(bad)
+			c.Check(rule, fmt.Sprintf("%s|output#%d|not-omitted-when-zero", fnName(fn), n), len(bad) == 0, ci.Pos(), fmt.Sprintf("printed only under a zero test of: %v (each has a non-zero parse default)", bad))
+		}
+	}
+	c.Floor(rule, 10)
 }
